@@ -185,8 +185,17 @@ def doLoad (a : Json) : Except String Json := do
   pure <| J.obj [("res", Json.str (resName r.2.2)), ("loc", encodeLoc r.1.loc),
                  ("persisted", encodeConds (persistedOf sh shard api))]
 
+/-- `C19.locks {wt}`: which calls the model lets run inside a running flush (from the regenerated lock facts) -/
+def doLocks (a : Json) : Except String Json := do
+  let wt ← J.getBool a "wt"
+  let c : Cond := ⟨[], [], 0, 0, 0, 0⟩
+  pure <| J.obj [("save", J.bool (mayRunInside genLocks wt (.save [] c))), ("delete", J.bool (mayRunInside genLocks wt (.delete [] []))),
+    ("deleteUpstream", J.bool (mayRunInside genLocks wt (.deleteUpstream [] []))), ("flush", J.bool (mayRunInside genLocks wt (.flush []))),
+    ("stop", J.bool (mayRunInside genLocks wt (.stop []))), ("load", J.bool (mayRunInside genLocks wt .load))]
+
 def handle (m : String) (a : Json) : Option (Except String Json) :=
   match m with
+  | "locks" => some (doLocks a)
   | "run" => some (doRun a)
   | "judge" => some (doJudge a)
   | "load" => some (doLoad a)
